@@ -29,7 +29,7 @@ def build_cell(e, cfg):
     delay = cfg.get("maxdelay")
     syn = neural.DeltaCurrent.partialconstructor(1.0)
     if kind == "dense":
-        conn = neural.LinearDense((2,), (2,), dt, synapse=syn, delay=delay, batch_size=B)
+        conn = neural.LinearDense(tuple(cfg.get("in_shape", (2,))), tuple(cfg.get("out_shape", (2,))), dt, synapse=syn, delay=delay, batch_size=B)
     elif kind == "direct":
         conn = neural.LinearDirect((2,), dt, synapse=syn, delay=delay, batch_size=B)
     elif kind == "conv":
@@ -59,6 +59,10 @@ def geometry(cfg, conn):
     s = cfg.get("delaysteps") if cfg.get("maxdelay") is not None else None
     if kind == "direct":
         return {(i,): [((i,), (i,), (s[i][i] if s else 0))] for i in range(2)}
+    if kind == "dense" and (cfg.get("in_shape") or cfg.get("out_shape")):
+        # non-square, multi-dimensional populations: weight (prod(out), prod(in)), row-major flattening of both sides
+        ins, outs = list(np.ndindex(*cfg.get("in_shape", (2,)))), list(np.ndindex(*cfg.get("out_shape", (2,))))
+        return {(o, i): [(outs[o], ins[i], (0 if s is None else s[o][i]))] for o in range(len(outs)) for i in range(len(ins))}
     if kind in ("dense", "lateral"):
         return {(o, i): [((o,), (i,), (0 if (s is None or (kind == "lateral" and o == i)) else s[o][i]))] for o in range(2) for i in range(2)}
     H, W, kh, kw, Fn, Cn = (tuple(cfg["geom"]) + (1,))[:6]
@@ -308,6 +312,18 @@ def checks(tier):
                                     if dly != "none":
                                         c.update(maxdelay=2 * dt, delaysteps=[[0, 1], [2, 1]], delayed=(dly == "delayed"))
                                     cfgs.append(c)
+    # non-square, multi-dimensional dense cell ((2, 2) -> (3,)): flattening order and orientation of the weight matrix
+    for trainer in ("stdp", "triplet", "mstdp", "mstdpet"):
+        for dly in ("none", "delayed"):
+            if trainer == "mstdpet" and dly == "delayed":
+                continue
+            if not th and dly == "delayed" and trainer != "stdp":
+                continue
+            c = dict(trainer=trainer, trace="cumulative", signs="hebbian", cell="dense", in_shape=(2, 2), out_shape=(3,), B=(2 if th else 1), reduction="sum", dt=1.3, T=3,
+                     signal=("-" if trainer in ("stdp", "triplet") else "scalar+"))
+            if dly != "none":
+                c.update(maxdelay=2 * 1.3, delaysteps=[[(o + 2 * i) % 3 for i in range(4)] for o in range(3)], delayed=True)
+            cfgs.append(c)
     # convolutional cells: a weight is shared by every output location (sum over the receptive fields)
     conv = []
     for trainer in ("stdp", "triplet", "mstdp", "mstdpet"):
@@ -333,7 +349,7 @@ def checks(tier):
 
 
 BOUNDS = {
-    "quick": {"trainers": ["STDP", "TripletSTDP", "MSTDP", "MSTDPET"], "trace modes": 2, "sign modes": 4, "cells": ["dense 2x2", "direct 2", "lateral 2", "Conv2D 3x3 input / 2x2 kernel / 1 filter, 2x3 input / 1x2 kernel / 2 filters, and 2 channels x 2x3 input / 1x2 kernel (T=3)"], "T": 4, "batch": 2,
+    "quick": {"trainers": ["STDP", "TripletSTDP", "MSTDP", "MSTDPET"], "trace modes": 2, "sign modes": 4, "cells": ["dense 2x2", "dense (2,2)->(3,) (non-square, multi-dimensional)", "direct 2", "lateral 2", "Conv2D 3x3 input / 2x2 kernel / 1 filter, 2x3 input / 1x2 kernel / 2 filters, and 2 channels x 2x3 input / 1x2 kernel (T=3)"], "T": 4, "batch": 2,
               "delays": "none / per-synapse grid delays {0,1,2} steps with delayed=True / delayed=False", "signal": "scalar +/-, per-sample symbolic tensor (forked on sign)", "dt": 1.3},
     "thorough": {"T": 6, "batch": [1, 2], "reductions": ["sum", "mean"], "dt": [1.0, 1.3], "all cells x all sign modes x all delay modes": True},
 }
